@@ -607,6 +607,11 @@ static Type *func_params(Token **rest, Token *tok, Type *ty) {
   Type *cur = &head;
   bool is_variadic = false;
 
+  // A parameter list is a scope of its own (function prototype scope):
+  // a tag or an enumerator declared in it ends with the list, unless
+  // the declarator turns out to be that of a function definition.
+  enter_scope();
+
   while (!equal(tok, ")")) {
     if (cur != &head)
       tok = skip(tok, ",");
@@ -641,10 +646,14 @@ static Type *func_params(Token **rest, Token *tok, Type *ty) {
     cur = cur->next = copy_type(ty2);
   }
 
+  Scope *sc = scope;
+  leave_scope();
+
   if (cur == &head)
     is_variadic = true;
 
   ty = func_type(ty);
+  ty->scope = sc;
   ty->params = head.next;
   ty->is_variadic = is_variadic;
   *rest = tok->next;
@@ -3874,6 +3883,13 @@ static Token *function(Token *tok, Type *basety, VarAttr *attr) {
   current_fn = fn;
   locals = NULL;
   enter_scope();
+
+  // The body of a function continues the scope of its parameter list.
+  if (ty->scope) {
+    scope->vars = ty->scope->vars;
+    scope->tags = ty->scope->tags;
+  }
+
   create_param_lvars(ty->params);
 
   // A buffer for a struct/union return value is passed
